@@ -28,9 +28,18 @@ type HashPair struct {
 // ByName implements sort.Interface for []HashPair based on the Key field.
 type ByName []HashPair
 
-func (a ByName) Len() int           { return len(a) }
-func (a ByName) Swap(i, j int)      { a[i], a[j] = a[j], a[i] }
-func (a ByName) Less(i, j int) bool { return a[i].Key.Inspect() < a[j].Key.Inspect() }
+func (a ByName) Len() int      { return len(a) }
+func (a ByName) Swap(i, j int) { a[i], a[j] = a[j], a[i] }
+func (a ByName) Less(i, j int) bool {
+
+	// Keys of different types can look the same, (1, "1", and 1.0 all
+	// show as "1"), the type decides between those so that the order of
+	// the entries never depends upon the order we were given them in.
+	if a[i].Key.Inspect() == a[j].Key.Inspect() {
+		return a[i].Key.Type() < a[j].Key.Type()
+	}
+	return a[i].Key.Inspect() < a[j].Key.Inspect()
+}
 
 // Hash wrap map[HashKey]HashPair and implements Object interface.
 type Hash struct {
